@@ -1,5 +1,7 @@
 import HedVerif.Driver.Util
+import HedVerif.Driver.Closed
 import HedVerif.Model.Issue
+import HedVerif.Model.IssueFlow
 import HedVerif.Generated.C12Sort
 open Lean
 namespace HedVerif.Driver.C12
@@ -10,6 +12,22 @@ def optNat (j : Json) (k : String) : Option Nat :=
   | .ok v => match v.getNat? with | .ok n => some n | .error _ => none
   | .error _ => none
 
+/-- context values on the wire: JSON number = int, JSON string = str, `{"ref": text}` = an object whose `str()` is text -/
+def valOf (v : Json) : Val :=
+  match v with
+  | Json.str s => Val.str s.toList
+  | Json.num n => Val.num n.mantissa   -- integers only (exponent 0)
+  | Json.obj _ => match v.getObjVal? "ref" with
+    | .ok (Json.str t) => Val.ref t.toList
+    | _ => Val.str []
+  | _ => Val.str []
+
+def valJson : Val → Json
+  | .num n => jint n
+  | .str s => jstr s
+  | .ref t => jobj [("ref", jstr t)]
+  | .list _ => Json.null
+
 def issueOf (j : Json) : Except String Issue := do
   let sev ← getNat j "severity"
   let span := match j.getObjVal? "span" with
@@ -18,11 +36,11 @@ def issueOf (j : Json) : Except String Issue := do
       | _, _ => none
     | _ => none
   let ctx : List (Str × Val) := match j.getObjVal? "ctx" with
-    | .ok (Json.obj kvs) => kvs.toList.map fun (k, v) =>
-        (k.toList, match v with
-          | Json.str s => Val.str s.toList
-          | Json.num n => Val.num n.mantissa   -- integers only (exponent 0)
-          | _ => Val.str [])
+    | .ok (Json.obj kvs) => kvs.toList.map fun (k, v) => (k.toList, valOf v)
+    | .ok (Json.arr kvs) => kvs.toList.filterMap fun kv =>      -- ordered: [[key, value], …]
+        match kv with
+        | Json.arr #[Json.str k, v] => some (k.toList, valOf v)
+        | _ => none
     | _ => []
   pure { code := [], severity := sev, span := span, modified := getBoolD j "modified" false,
          idx := optNat j "idx", idxEnd := optNat j "idxEnd", ctx := ctx }
@@ -31,8 +49,107 @@ def iterN (f : Issue → Issue) : Nat → Issue → Issue
   | 0, a => a
   | n + 1, a => iterN f n (f a)
 
+def opOf (j : Json) : Except String Op := do
+  match ← getString j "t" with
+  | "push" =>
+    let k ← getStr j "k"
+    let v := match j.getObjVal? "v" with
+      | .ok Json.null => none
+      | .ok v => some (valOf v)
+      | .error _ => none
+    pure (.push k v)
+  | "pop" => pure .pop
+  | "reset" => pure .reset
+  | "format" => pure (.format (← issueOf j))
+  | t => .error s!"unknown history op {t}"
+
+def ctxJson (d : List (Str × Val)) : Json := jarr (d.map fun kv => jarr [jstr kv.1, valJson kv.2])
+
+def intKeys : List Str := (Generated.C12.sortList.filter (·.2)).map (·.1)
+
+def lineJson : Line → Json
+  | .ctx n k => jarr [jnat n, Json.str "c", jstr k.1, jstr k.2]
+  | .issue n i => jarr [jnat n, Json.str "i", jnat (i.idx.getD 0)]
+
+def locJson (i : Issue) : Json :=
+  jarr [jstr i.code, jnat i.severity,
+        match i.span with | some (a, b) => jarr [jnat a, jnat b] | none => Json.null,
+        match i.charIdx with | some (a, b) => jarr [jnat a, jnat b] | none => Json.null]
+
+/-- one string under `ErrorHandler(check_for_warnings = w)` holding the HED_STRING context -/
+def stringJson (env : Validate.Env) (j : Json) : Except String Json := do
+  let text ← getStr j "text"
+  let ph ← getBool j "ph"
+  let p := Validate.parse env text
+  if Validate.unmodelledP env p then pure (jobj [("unmodelled", jbool true)]) else
+  if Validate.raisesP env ph text p then pure (jobj [("raises", jbool true)]) else
+  let loc := fun (w : Bool) => (Flow.validateWP w env ph text p).map fun i => updateCharPos true (Flow.toIssue i)
+  pure (jobj [("on", jarr ((loc true).map locJson)), ("off", jarr ((loc false).map locJson)),
+              ("stable", jbool ((Validate.tagsList p.root0).all fun t => !t.entry.isSome ||
+                ((Validate.canon env t).2.isEmpty && decide ((Validate.canon env t).1.extVal.length ≤ t.extVal.length))))])
+
+def tabOut (r : Except Tabular.PyExc (List Tabular.Issue)) : Json :=
+  match r with
+  | .error e => jobj [("exc", Json.str (C07.excName e))]
+  | .ok out => jobj [("issues", jarr (out.map fun i =>
+      jarr [jstr i.kind, jnat i.sev, jopt jnat i.row, jopt jstr i.col, Json.str (C07.srcName i.src)]))]
+
+/-- `Flow.Tab.validateClosedW w` for both values of `w` (oracle values tabulated: `Closed.memoTab_eq`) -/
+def tableJson (env : Validate.Env) (j : Json) : Except String Json := do
+  let cfg ← C07.cfgOf j
+  let T ← (← getArr j "rows").mapM C07.rowOf
+  match (HedVerif.Closed.consulted cfg T).find? (HedVerif.Closed.textUnmodelled env) with
+  | some t => pure <| jobj [("unmodelled", jstr t)]
+  | none =>
+    if T.any (HedVerif.Closed.rowSplit env Closed.kBanned cfg) then pure <| jobj [("unmodelled", Json.str "malformed cell in a checked row")] else
+    let ccfg := HedVerif.Closed.closeCfg env Closed.kBanned cfg
+    let mcfg := { ccfg with o := HedVerif.Closed.memoTab ccfg.o (HedVerif.Closed.consulted cfg T).eraseDups }
+    pure <| jobj [("on", tabOut (Flow.Tab.validateW Tabular.anyError true mcfg T)),
+                  ("off", tabOut (Flow.Tab.validateW Tabular.anyError false mcfg T))]
+
+def scOut (r : Except SidecarV.Exn (List SidecarV.Issue)) : Json :=
+  match r with
+  | .ok is => jobj [("ok", jarr (is.map C08.issueJson))]
+  | .error .unmodelled => jobj [("unmodelled", Json.str "pandas coercion")]
+  | .error e => jobj [("raise", Json.str (C08.exnName e))]
+
+def docJson (env : Validate.Env) (j : Json) : Except String Json := do
+  let doc ← C08.decode (← getVal j "doc")
+  let g := if getBoolD j "fixed" true then SidecarV.Guards.fixed else SidecarV.Guards.unfixed
+  match Closed.sidecarUnmodelled env g doc with
+  | some why => pure <| jobj [("unmodelled", Json.str why)]
+  | none =>
+    let texts := match Closed.sidecarTexts env g doc with
+      | .ok (entries, full) => (entries ++ full).eraseDups
+      | .error _ => []
+    let O := HedVerif.Closed.memoSidecar (HedVerif.Closed.sidecarOracle env) texts
+    pure <| jobj [("on", scOut (Flow.Sc.validateW true g O doc)), ("off", scOut (Flow.Sc.validateW false g O doc))]
+
 def handle (op : String) (j : Json) : Option (Except String Json) :=
   match op with
+  | "c12.ctx" => some do
+      let w ← getBool j "w"
+      let ops ← (← getArr j "ops").mapM opOf
+      match run intKeys w {} ops with
+      | none => pure (jobj [("raised", jbool true)])
+      | some s => pure (jobj [("raised", jbool false), ("stack", ctxJson s.stack),
+                              ("out", jarr (s.out.map fun i => jobj [("id", jnat (i.idx.getD 0)), ("ctx", ctxJson i.ctx)]))])
+  | "c12.print" => some do
+      let items ← (← getArr j "issues").mapM fun x => do
+        let i ← issueOf x
+        let id ← getNat x "id"
+        pure { i with idx := some id }
+      let sev := optNat j "severity"
+      pure (jobj [("lines", jarr ((printLines (← getBool j "skipFile") sev items).map lineJson))])
+  | "c12.string" => some do
+      let env ← C01.envOf j
+      pure (jobj [("answers", jarr (← (← getArr j "cases").mapM (stringJson env)))])
+  | "c12.file" => some do
+      let env ← C01.envOf j
+      pure (jobj [("answers", jarr (← (← getArr j "tables").mapM (tableJson env)))])
+  | "c12.sidecar" => some do
+      let env ← C01.envOf j
+      pure (jobj [("answers", jarr (← (← getArr j "docs").mapM (docJson env)))])
   | "c12.decorate" => some do
       let i ← issueOf (← getVal j "issue")
       let hs ← getBool j "hasString"
